@@ -143,3 +143,47 @@ Proof.
         unfold sorted_ids. repeat constructor; vm_compute; discriminate.
     + repeat constructor; cbn; intros H; repeat (destruct H as [H|H]; [discriminate H|]); exact H.
 Qed.
+
+(* ---- gix-chunk's table of contents on ANY assembled chunk list ---------------------------------------------
+   (also files with chunks gitoxide does not read: GDA2, GDO2, BIDX, BDAT; any chunk order) *)
+From GixV.C14 Require Import ProofsToc.
+
+Theorem toc_of_assembled_file : forall nbase chunks trailer,
+  chunks <> [] -> (length chunks < 256)%nat ->
+  Forall (fun c => id_ok (fst c)) chunks -> NoDup (map fst chunks) ->
+  len (assemble nbase chunks trailer) < U64 ->
+  let data := assemble nbase chunks trailer in
+  let n := N.of_nat (length chunks) in
+  b2N (nth 6 data x00) = n /\
+  toc_from_bytes data 8 n = Ok (toc_of (sizes chunks) (8 + 12 * (n + 1))).
+Proof. exact L_toc_of_assemble. Qed.
+
+(* every chunk is found by its id; its range starts after the header, the table and the chunks before it … *)
+Theorem chunk_found_by_id : forall pre id c post ofs, id_ok id -> ~ In id (map fst pre) ->
+  toc_find (toc_of (sizes (pre ++ (id, c) :: post)) ofs) id
+  = Some (ofs + total_size (sizes pre), ofs + total_size (sizes pre) + len c).
+Proof. exact toc_find_region. Qed.
+
+Theorem chunk_absent_not_found : forall chunks id ofs, ~ In id (map fst chunks) ->
+  toc_find (toc_of (sizes chunks) ofs) id = None.
+Proof. exact toc_find_absent. Qed.
+
+(* … and the file's bytes from there on are the chunk's content, the later chunks and the trailer *)
+Theorem chunk_range_holds_content : forall nbase pre id c post trailer,
+  Forall (fun c => id_ok (fst c)) (pre ++ (id, c) :: post) ->
+  let chunks := pre ++ (id, c) :: post in
+  let n := N.of_nat (length chunks) in
+  skipn (N.to_nat (8 + 12 * (n + 1) + total_size (sizes pre))) (assemble nbase chunks trailer)
+  = c ++ concat (map snd post) ++ trailer.
+Proof. exact region_content. Qed.
+
+Example toc_hypotheses_satisfiable :
+  let chunks := file_chunks ex_rs [] in
+  chunks <> [] /\ (length chunks < 256)%nat /\ Forall (fun c => id_ok (fst c)) chunks /\ NoDup (map fst chunks) /\
+  len (assemble 0 chunks (repeat x00 20)) < U64.
+Proof.
+  vm_compute. split; [discriminate|]. split; [lia|]. split.
+  - repeat (apply Forall_cons; [split; [reflexivity|discriminate]|]). apply Forall_nil.
+  - split; [|reflexivity].
+    repeat constructor; cbn; intros H; repeat (destruct H as [H|H]; [discriminate H|]); exact H.
+Qed.
